@@ -534,7 +534,8 @@ def r04_7(chk, cr):
         later = [e for e in ev.events[at + 1:] if e.kind == "call" and e.target is not None and e.target.key().startswith(lst + ".")
                  and e.target.key()[len(lst):] in REORDER]
         later += [e for e in ev.events[at + 1:] if e.kind in ("delete", "store", "aug") and e.target is not None and e.target.key().startswith(lst + "[")]
-        handed = [e for e in ev.events if e.kind == "return" and e.value is not None and not any(pol and "hasattr" in c.key() for c, pol in e.guards)]
+        handed = [e for e in ev.events if e.kind == "return" and e.value is not None and not any(pol and "hasattr" in c.key() for c, pol in e.guards)
+                  and "_symmetry_unique_molecules" not in e.value.key()]           # the memo's own early return hands out the stored list
         handed_ok = bool(handed) and all(e.value.key() == lst for e in handed)
         memo = [e for e in ev.events if e.kind == "call" and call_name(e.value.as_atom() or ()) == "setattr" and e.extra.get("args")
                 and len(e.extra["args"]) == 3 and "_symmetry_unique_molecules" in e.extra["args"][1].key()]
